@@ -36,7 +36,9 @@ RULE = ('structured generator: models over every span type (range, list of int /
         'big ints; tuple; NumPy int / str arrays; pandas Index, PeriodIndex Y / Q, DatetimeIndex), lengths 0..5 (quick) / 0..7 (thorough), model '
         'dtype float / int / bool / str, 0..4 class variables with and without leading underscores (also "_" alone, "__x", "x_"), '
         '0..3 runtime-added variables of every dtype, written status / iterations or really solved models, all 8 flag combinations, '
-        'round-trip classes (same NAMES, permuted, extended, reduced; every dtype=; strict / non-strict; default values); linkers with '
+        'round-trip classes (same NAMES, permuted, extended, reduced; every dtype=; strict / non-strict; default values); every name set x '
+        'every flag combination x every model dtype on a two-period span; hand-edited names lists (duplicates, status / iterations, '
+        'unknown names: malformed stream, K only); plain VectorContainers and VectorContainer.to_dataframe on model objects; linkers with '
         '0..3 submodels keyed by str / int (incl. a key equal to the linker name); symbol lists from parsed C01-grammar scripts and '
         'hand-made lists exercising every optional field None / not None, lags / leads at 0, +-1, +-2^53, +-(2^53+1), int64 bounds and '
         'beyond, every Type value; hand-made frames for dataframe_to_symbols.  Non-trivial = at least 2 periods and 2 exported columns '
@@ -924,7 +926,7 @@ def oracle(case, o):
                 bad('from_dataframe', clause, rt['raise'], 'from_dataframe of the exported table raised %s (series dtypes %s)' % (rt['raise'], dts))
             else:
                 if len(rt['span']['labels']) != len(pre['span']['labels']) or not all(
-                        values_equal(a, b) for a, b in zip(rt['span']['labels'], o['table']['index']['labels'])):
+                        a == b or values_equal(a, b) for a, b in zip(rt['span']['labels'], o['table']['index']['labels'])):
                     bad('from_dataframe', 'span', 'not-reproduced', 'span %s became %s' % (pre['span']['labels'], rt['span']['labels']))
                 new = {kk: cs for kk, _, cs in rt['vars']}
                 for name, _, cells in data_cols:
@@ -1014,10 +1016,11 @@ def bucket(case, o):
     k = case['kind']
     if k in ('export', 'solved'):
         rt = o.get('rt')
-        return '%s/%s/%s/flags=%d%d%d/rt=%s' % (k, case['span']['type'], case.get('dtype', 'float'), *[int(x) for x in case['flags']],
-                                               'none' if rt is None else rt['raise'] if 'raise' in rt else 'ok')
+        t = o.get('table', {})
+        return '%s/%s/%s/export=%s/rt=%s' % (k + ('-tampered' if case.get('tamper') else ''), case['span']['type'], case.get('dtype', 'float'),
+                                             t['raise'] if 'raise' in t else 'ok', 'none' if rt is None else rt['raise'] if 'raise' in rt else 'ok')
     if k == 'container':
-        return 'container/%s/%s/%d-vars' % ('model' if case.get('model') else 'vc', case['span']['type'], len(case['vars']))
+        return 'container/%s/%s' % ('model' if case.get('model') else 'vc', case['span']['type'])
     if k == 'linker':
         return 'linker/%d-subs/%s' % (len(case['subs']), 'raise' if 'raise' in o else 'ok')
     if k == 'symbols':
@@ -1091,6 +1094,10 @@ def span_specs(nmax):
         [['s', 'a'], ['ff', 3, 1]], [['i', 1], ['i', 1], ['i', 2]], [['s', ''], ['s', 'nan']], [['fi', 1], ['none'], ['i', 3]],
         [['per', 1, 30], ['per', 1, 31]], [['ts', TS_D0]], [['ts', TS_D0], ['ts', TS_D0 + 86400 * 10 ** 9]], [['s', 'a'], ['i', 1], ['none']],
         [['nz'], ['fi', 0]], [['i', -2 ** 63], ['i', 2 ** 63 - 1]],
+        [['b', True], ['none']], [['tup', 1, 2], ['none']], [['ff', 3, 1], ['s', 'a'], ['none']], [['b', True], ['ff', 3, 1]],
+        [['none'], ['s', 'a'], ['i', 1]], [['b', True], ['b', False], ['none']], [['ff', 3, 1], ['none']], [['i', 2 ** 63], ['ff', 3, 1]],
+        [['i', 2 ** 64], ['ff', 3, 1]], [['per', 1, 30], ['none']], [['per', 1, 30], ['per', 2, 120]], [['ts', TS_D0], ['i', 1]],
+        [['s', 'a'], ['s', 'a']], [['i', 2 ** 63], ['none']],
     ]
     for labs in odd:
         specs.append({'type': 'list', 'labels': labs})
